@@ -344,3 +344,52 @@ def gen_c02_decls(rng, tier):
         return [bl[i] for i in perm], trail
     family("f64", f_blocks, [(p, PRED_FORMS[i % 3], bool(i % 2)) for i, p in enumerate(permutations([0, 1, 2]))])
     return b.decls
+
+
+# ---------------------------------------------------------------- generated #[test]s (C08)
+
+def gen_gentest_decls(rng, tier):
+    """declarations whose consistency the macro cannot decide itself (expression-valued
+    bounds, defaults): the #[test]s it emits must fail exactly for the inconsistent ones"""
+    b = Builder("g")
+    D = derive_block
+
+    def consts(ty, lo, hi, flt=False):
+        if flt:
+            is64 = FLOAT_TYPES[ty]
+            return [("LO", ty, fbits(lo, is64), "const LO: %s = %s;" % (ty, lo)), ("HI", ty, fbits(hi, is64), "const HI: %s = %s;" % (ty, hi))]
+        return [("LO", ty, lo, "const LO: %s = %d;" % (ty, lo)), ("HI", ty, hi, "const HI: %s = %d;" % (ty, hi))]
+    for ty in ("i32", "u8", "i64"):
+        for lk in LOWER:
+            for uk in UPPER:
+                for lo, hi in ((3, 9), (5, 5), (9, 3), (5, 6)):
+                    b.add(ty, [block("validate", [[tid(lk), EQ, tx(k("LO"))], [tid(uk), EQ, tx(k("HI"))]]), D(["Debug"])],
+                          "gentest", env=consts(ty, lo, hi))
+    for ty in ("f32", "f64"):
+        for lk in LOWER:
+            for uk in UPPER:
+                for lo, hi in (("0.5", "9.5"), ("5.0", "5.0"), ("9.5", "0.5"), ("-0.0", "0.0")):
+                    b.add(ty, [block("validate", [[tid(lk), EQ, tx(k("LO"))], [tid(uk), EQ, tx(k("HI"))]]), D(["Debug"])],
+                          "gentest", env=consts(ty, lo, hi, True))
+    for mn, mx in ((1, 3), (3, 3), (4, 3)):
+        env = [("MN", "usize", mn, "const MN: usize = %d;" % mn), ("MX", "usize", mx, "const MX: usize = %d;" % mx)]
+        b.add("String", [block("validate", [[tid("len_char_min"), EQ, tx(k("MN"))], [tid("len_char_max"), EQ, tx(k("MX"))]]), D(["Debug"])], "gentest", env=env)
+        b.add("String", [block("validate", [[tid("len_char_max"), EQ, tx(k("MX"))], [tid("len_char_min"), EQ, tx(k("MN"))]]), D(["Debug"])], "gentest", env=env)
+    # defaults: valid, invalid, needing sanitisation; literal and constant
+    for ty, dv, envs in (("i32", 5, []), ("i32", 50, []), ("i32", 150, []), ("i32", -3, [])):
+        b.add(ty, [block("sanitize", [[tid("with"), EQ, tfn(0, "p", "s")]]), block("validate", [[tid("less"), EQ, li(100)], [tid("greater"), EQ, li(0)]]),
+                   [tid("default"), EQ, li(dv)], D(["Debug", "Default"])], "gentest")
+        env = [("DV", ty, dv, "const DV: %s = %d;" % (ty, dv))]
+        b.add(ty, [block("validate", [[tid("less"), EQ, li(100)], [tid("greater"), EQ, li(0)]]),
+                   [tid("default"), EQ, tx(k("DV"))], D(["Debug", "Default"])], "gentest", env=env)
+    for dv in ("1.5", "-1.5", "100.0"):
+        b.add("f64", [block("validate", [[tid("finite")], [tid("greater_or_equal"), EQ, lf("0.0")]]), [tid("default"), EQ, lf(dv)], D(["Debug", "Default"])], "gentest")
+    for dv in ("ab", "", "  ", " x "):
+        b.add("String", [block("sanitize", [[tid("trim")]]), block("validate", [[tid("not_empty")]]), [tid("default"), EQ, tx(estr(dv))], D(["Debug", "Default"])], "gentest")
+    for dv in ([1], [], [1, 2, 3, 4, 5]):
+        b.add("Vec<i32>", [block("validate", [[tid("predicate"), EQ, tfn(0, "p", "p")]]), [tid("default"), EQ, tx(elist(dv))], D(["Debug", "Default"])], "gentest")
+    # no validation / generic: no default test is emitted
+    b.add("i32", [[tid("default"), EQ, li(5)], D(["Debug", "Default"])], "gentest")
+    for d in b.decls:
+        d.no_run = True
+    return b.decls
